@@ -167,7 +167,25 @@ pub fn judge(call: usize, aw: [f64; 2], bw: [f64; 2], l: Option<&mut Local>) -> 
     )
 }
 
+pub fn hist_judge(c: &crate::hist::HCall, l: Option<&mut Local>) -> Verdict {
+    use crate::api::Op;
+    let k = match c.as_op() {
+        Some(Op::rem) => 0,
+        Some(Op::rem_assign) => 1,
+        Some(Op::rem_f) => 2,
+        Some(Op::rem_assign_f) => 3,
+        Some(Op::f_rem) => 4,
+        Some(Op::div_euclid) => 5,
+        Some(Op::rem_euclid) => 6,
+        _ => return Verdict::Skip,
+    };
+    judge(k, c.a, c.b, l)
+}
+
 pub fn replay(call: &str, _clause: &str, args: &[u64]) -> Verdict {
+    if call == "hist" {
+        return crate::hist::replay(args, &hist_judge);
+    }
     let ci = CALLS.iter().position(|c| *c == call).expect("unknown call");
     judge(ci, [f64::from_bits(args[0]), f64::from_bits(args[1])], [f64::from_bits(args[2]), f64::from_bits(args[3])], None)
 }
@@ -359,5 +377,12 @@ pub fn run(r: &mut Runner) {
                 }
             }
         });
+    }
+    {
+        use crate::api::Op;
+        let pairs = [([7.5, 1e-16], [2.0, 1e-17]), ([-9.0, 0.0], [5.0, 0.0]), ([1e10, 1e-7], [3.0, -1e-17])];
+        let mut groups = crate::hist::binary_groups(&[Op::rem, Op::rem_euclid], &pairs);
+        groups.extend(crate::hist::binary_groups(&[Op::div_euclid, Op::rem_assign], &pairs[..2]));
+        crate::hist::explore(r, "histories: %, div_euclid, rem_euclid", &groups, 3, &hist_judge, 14u64 << 55);
     }
 }
